@@ -71,6 +71,74 @@ def _rename_key(expr):
     return "".join(m.get(t, m2.get(t, t)) for t in toks)
 
 
+def uf_instance_axioms(exprs):
+    """Sound instance axioms for the uninterpreted transcendentals occurring in `exprs`
+    (positivity / range / monotonic anchors / oddness).  They only remove spurious models."""
+    seen, apps = set(), []
+    stack = list(exprs)
+    while stack:
+        e = stack.pop()
+        i = e.get_id()
+        if i in seen:
+            continue
+        seen.add(i)
+        if z3.is_app(e) and e.decl().kind() == z3.Z3_OP_UNINTERPRETED and e.num_args() >= 1:
+            apps.append(e)
+        stack.extend(e.children())
+    ax = []
+    by_name = {}
+    for a in apps:
+        name = a.decl().name()
+        by_name.setdefault(name, []).append(a)
+        t = a.arg(0)
+        if name == "uf_exp":
+            ax += [a > 0, z3.Implies(t >= 0, a >= 1), z3.Implies(t <= 0, a <= 1), a >= 1 + t]
+        elif name == "uf_log":
+            ax += [z3.Implies(t >= 1, a >= 0), z3.Implies(z3.And(t > 0, t <= 1), a <= 0), z3.Implies(t > 0, a <= t - 1)]
+        elif name == "uf_sqrt":
+            ax += [z3.Implies(t >= 0, z3.And(a >= 0, a * a == t))]
+        elif name in ("uf_tanh", "uf_erf"):
+            ax += [a > -1, a < 1, z3.Implies(t >= 0, a >= 0), z3.Implies(t <= 0, a <= 0)]
+        elif name in ("uf_sin", "uf_cos"):
+            ax += [a >= -1, a <= 1]
+        elif name == "uf_atan":
+            ax += [z3.Implies(t >= 0, a >= 0), z3.Implies(t <= 0, a <= 0)]
+    # monotonicity / injectivity between pairs of applications of the same increasing function
+    for name in ("uf_exp", "uf_tanh", "uf_erf", "uf_atan", "uf_log", "uf_sqrt"):
+        L = by_name.get(name, [])[:6]
+        for i in range(len(L)):
+            for j in range(i + 1, len(L)):
+                x, y = L[i].arg(0), L[j].arg(0)
+                if name in ("uf_log", "uf_sqrt"):
+                    ax.append(z3.Implies(z3.And(x > 0, y > 0, x <= y), L[i] <= L[j]))
+                    ax.append(z3.Implies(z3.And(x > 0, y > 0, y <= x), L[j] <= L[i]))
+                else:
+                    ax.append(z3.Implies(x <= y, L[i] <= L[j]))
+                    ax.append(z3.Implies(y <= x, L[j] <= L[i]))
+    # Lipschitz bounds (and their odd counterparts): constants rounded differently on the two sides
+    # give arguments that differ by ~1e-8, which must not become an arbitrary difference of f
+    def _abs(v):
+        return z3.If(v >= 0, v, -v)
+
+    for name, lip in (("uf_tanh", 1.0), ("uf_erf", 1.1284), ("uf_atan", 1.0), ("uf_sin", 1.0), ("uf_cos", 1.0)):
+        L = by_name.get(name, [])[:5]
+        for i in range(len(L)):
+            for j in range(i + 1, len(L)):
+                x, y = L[i].arg(0), L[j].arg(0)
+                ax.append(_abs(L[i] - L[j]) <= z3.RealVal(lip) * _abs(x - y))
+                if name != "uf_cos":
+                    ax.append(_abs(L[i] + L[j]) <= z3.RealVal(lip) * _abs(x + y))
+                else:
+                    ax.append(_abs(L[i] - L[j]) <= _abs(x + y))  # cos is even
+    # odd functions: f(-t) = -f(t) for syntactically negated arguments
+    for name in ("uf_tanh", "uf_erf", "uf_atan", "uf_sin"):
+        L = by_name.get(name, [])[:6]
+        for i in range(len(L)):
+            for j in range(i + 1, len(L)):
+                ax.append(z3.Implies(L[i].arg(0) == -L[j].arg(0), L[i] == -L[j]))
+    return ax
+
+
 def differs_expr(a, b, kind, tau):
     """z3 Bool: elements a (candidate) and b (reference) differ by the comparator."""
     if kind == "b":
@@ -280,6 +348,10 @@ def compare_outputs(
             t0 = time.time()
             r = None
             q_raw = differs_expr(X, Y, kind, tau)
+            if kind == "f":
+                solver.push()
+                for axm in uf_instance_axioms([X, Y]):
+                    solver.add(axm)
             half = max(500, int(timeout_ms) // 2)
             if kind == "f" and tau:
                 # stage 1: exact disequality on the raw terms (cheap for discrete mismatches such as
@@ -338,6 +410,8 @@ def compare_outputs(
                 st.unknown += 1
                 unknown += 1
             solver.pop()
+            if kind == "f":
+                solver.pop()
     if twin and twin_target is not None:
         # vacuity twin: the reference element perturbed must be distinguishable
         Ys, kind = twin_target
